@@ -217,6 +217,10 @@ def main(tier):
                         if tier == 'quick' and (nd + scale + MODES.index(mode) + (sign > 0)) % 2 and nd not in (1, w):
                             continue
                         tasks.append({'nd': nd, 'scale': scale, 'p': p, 'mode': mode, 'sign': sign})
+    if tier == 'thorough':
+        # the default precision (100 digits) on a handful of short inputs (312-digit integer roots)
+        for (nd, scale, mode, sign) in [(2, 1, 'HalfEven', 1), (3, 0, 'Floor', -1), (1, -1, 'Up', 1)]:
+            tasks.append({'nd': nd, 'scale': scale, 'p': 100, 'mode': mode, 'sign': sign})
     for scale in (-4, 0, 5):
         tasks.append({'nd': 0, 'scale': scale, 'p': 2, 'mode': 'HalfEven', 'sign': 1})
     rep.required_labels = {'rounds the root (negative)', 'rounds the root (positive)', 'zero'}
